@@ -80,6 +80,11 @@ func (f *fileEvent) OnEvent(progress *PackageProgress) {
 			len(progress.Record), progress.ExtensionFields.ActiveSafetyType.String())
 		_ = os.MkdirAll(phone, os.ModePerm)
 		for name, pack := range progress.Record {
+			if name == "" || name == "." || name == ".." || strings.ContainsAny(name, "/\\\x00") {
+				// 文件名来自终端 不允许带路径 否则可以写到终端目录之外
+				str += fmt.Sprintf("拒绝保存文件[%q] 文件名不能包含路径\n", name)
+				continue
+			}
 			savePath := fmt.Sprintf("./%s/%s", phone, name)
 			err := os.WriteFile(savePath, pack.StreamBody, os.ModePerm)
 			str += fmt.Sprintf("保存文件[%s] 文件大小[%d byte] 保存情况[%v]\n",
